@@ -35,7 +35,7 @@ func init() {
 	})
 	register(&Rule{
 		ID:    "C07.bits",
-		Props: []string{"C07"},
+		Props: []string{"C07", "C20"},
 		Doc:   "TWKB header bit layout, writer vs reader by composition: for every kind 1..7 and XY precision -8..7 the type/precision byte written by writeTypeAndPrecision is decoded by parseTypeAndPrecision to the same kind and precision; for every (hasZ, hasM, precZ 0..7, precM 0..7) the extended-precision byte written is decoded to the same flags and precisions",
 		Floor: 3,
 		Run:   runC07Bits,
